@@ -20,6 +20,7 @@ pub mod zones;
 
 mod c01;
 mod c03;
+mod c04;
 
 fn main() {
     let args: Vec<String> = std::env::args().skip(1).collect();
@@ -50,6 +51,10 @@ fn main() {
         }
         "c03" => {
             c03::run(&mut cx);
+            cx.finish()
+        }
+        "c04" => {
+            c04::run(&mut cx);
             cx.finish()
         }
         other => {
